@@ -265,6 +265,11 @@ def oracle_tok(evs, term, cs):
         if o.kind == "h":
             out += watch_oracle(recs, pending if term.startswith("deadlock") else [], wi, o)
 
+    # ---- OnceCell: one value, set once ----
+    for xi_, o in enumerate(objs):
+        if o.kind == "x":
+            out += oncecell_oracle(recs, pending if term.startswith("deadlock") else [], xi_)
+
     # ---- deadlock: every blocked operation must be blocked under tokio's contract too ----
     if term.startswith("deadlock"):
         out += deadlock_oracle(recs, recs_by_done, pending, ended, objs, evs)
@@ -624,4 +629,47 @@ def notify_deadlock(recs, pending, ni, ended=None):
             if saw_drop_of_enabled:
                 tag = "C19-F3"
             out.append(("deadlock on Notify %d: %s" % (ni, bad), tag))
+    return out
+
+
+def oncecell_oracle(recs, pending, xi_):
+    """tokio's OnceCell judged on the implementation's trace: every get / get_or_init of one cell returns the same value, that
+    value was offered by a set that succeeded or by an initialiser that ran to completion, set succeeds at most once, a get
+    that begins after a completed initialisation sees the value, AlreadyInitialized / Initializing are reported only when
+    an initialisation has begun, and at a deadlock nobody waits in get_or_init unless an initialiser is still inside."""
+    out = []
+    mine = [r for r in recs if r.args and r.args[0] == xi_ and r.pre in ("xs", "xg", "xi", "xt") and r.tag != MISUSE]
+    seen = set()
+    for r in mine:
+        if r.done is None:
+            continue
+        if r.pre in ("xg", "xi", "xt") and r.vals and r.vals[0] == 1:
+            seen.add(r.vals[1])
+    if len(seen) > 1:
+        out.append(("OnceCell %d yielded different values %s" % (xi_, sorted(seen)), None))
+    offered = {r.args[1] for r in mine if r.pre in ("xs", "xi")}
+    for v in seen:
+        if v not in offered:
+            out.append(("OnceCell %d holds %d, which no set / get_or_init of the program offers" % (xi_, v), None))
+    oks = [r for r in mine if r.pre == "xs" and r.done is not None and r.vals[0] == 0]
+    if len(oks) > 1:
+        out.append(("OnceCell %d: set succeeded %d times" % (xi_, len(oks)), None))
+    # completed initialisations: a successful set, or a get_or_init whose own value was stored
+    inits_done = [r.done for r in oks] + [r.done for r in mine if r.pre == "xi" and r.done is not None and r.vals[0] == 1]
+    first_init = min(inits_done) if inits_done else None
+    begun = [r.start for r in mine if r.pre in ("xs", "xi", "xt")]
+    for r in mine:
+        if r.done is None:
+            continue
+        if r.pre == "xg" and r.vals[0] == 0 and first_init is not None and first_init < r.start:
+            out.append(("OnceCell %d: get returns None after an initialisation had completed" % xi_, None))
+        if r.pre == "xs" and r.vals[0] in (1, 2) and not any(b < r.done and b != r.start for b in begun):
+            out.append(("OnceCell %d: set fails although no other initialisation has begun" % xi_, None))
+        if r.pre == "xs" and r.vals[0] == 0 and first_init is not None and first_init < r.start:
+            out.append(("OnceCell %d: set succeeds after an initialisation had completed" % xi_, None))
+    for r in pending:
+        if r.pre in ("xi", "xt") and r.args and r.args[0] == xi_:
+            others = [q for q in pending if q is not r and q.args and q.args[0] == xi_ and q.pre in ("xi", "xt")]
+            if not others:
+                out.append(("deadlock: get_or_init blocked on OnceCell %d although no initialiser is running" % xi_, None))
     return out
